@@ -93,7 +93,7 @@ func (s *Scn) footprint() []slot {
 				add(s.Snd, k, args[0])
 				add(s.acctAt(args[3]), k, args[0])
 			} else if s.Dst != nil {
-				out = append(out, slot{acct: s.Dst, key: tokenKey(args[0]), tok: args[0], pfx: true})
+				out = append(out, s.arrivalSlot(args[0], []byte{1}, args[3]))
 			}
 		}
 	case "MultiESDTNFTTransfer":
@@ -106,11 +106,29 @@ func (s *Scn) footprint() []slot {
 			}
 		} else if s.Dst != nil && len(args) >= 1 {
 			for i := 1; i+2 < len(args) && i < 1+3*3; i += 3 {
-				out = append(out, slot{acct: s.Dst, key: tokenKey(args[i]), tok: args[i], pfx: true})
+				out = append(out, s.arrivalSlot(args[i], args[i+1], args[i+2]))
 			}
 		}
 	}
 	return out
+}
+
+// arrivalSlot is the one entry an arriving item may credit on the destination shard: the plain
+// token key for a fungible item, token‖nonce with the nonce the payload carries for an NFT/SFT
+// item (the plain key when the payload has no metadata); every entry of the token when the
+// payload is not a decodable token (the call then fails or decodes to an arbitrary value).
+func (s *Scn) arrivalSlot(tok, nonceB, third []byte) slot {
+	if nonceOf(nonceB) == 0 {
+		return slot{acct: s.Dst, key: tokenKey(tok), tok: tok}
+	}
+	t := s.W.Codec.Token(third)
+	if t == nil {
+		return slot{acct: s.Dst, key: tokenKey(tok), tok: tok, pfx: true}
+	}
+	if t.TokenMetaData == nil || t.TokenMetaData.Nonce == 0 {
+		return slot{acct: s.Dst, key: tokenKey(tok), tok: tok}
+	}
+	return slot{acct: s.Dst, key: append(tokenKey(tok), new(big.Int).SetUint64(t.TokenMetaData.Nonce).Bytes()...), tok: tok}
 }
 
 func inFootprint(fp []slot, wr world.Write) bool {
